@@ -1,6 +1,7 @@
 import Lean.Data.Json
 import NGF.Model.C02Judge
 import NGF.Model.PipelineTie
+import NGF.Model.PipelineTlsProbe
 import NGF.Model.Hostname
 import NGF.Model.Precedence
 import NGF.Model.Proto
@@ -236,9 +237,31 @@ def pipelineJ (j : Json) : Except String Json := do
   | .ok cfg =>
     let t := NGF.PipelineTie.tie cfg s 600
     pure (Json.mkObj [("inFragment", t.inFragment), ("why", t.why), ("noShadow", t.noShadow), ("confEqual", t.confEqual),
-      ("namesPlain", t.namesPlain), ("routesHaveRules", t.routesHaveRules), ("thmProbes", t.thmProbes),
+      ("namesPlain", t.namesPlain), ("hostsDNS", t.hostsDNS), ("routesHaveRules", t.routesHaveRules), ("thmProbes", t.thmProbes),
       ("reqExcluded", t.reqExcluded),
       ("confDiff", t.confDiff), ("probes", t.probes), ("thmFail", t.thmFail.getD ""), ("specFail", t.specFail.getD "")])
+
+/-- `pipelineT` mode: a fragment line of harness/c16 (`{"site":"frag","flat":…,"files":…,"secrets":[…]}`) — the refinement
+theorem on HTTP + HTTPS listeners (`route_refines_spec_https`), `sni_host_mismatch_421`, and the restated specification
+`routeT`, executed on the probes against the REAL configuration, the model `genT` and the full oracle -/
+def pipelineTJ (j : Json) : Except String Json := do
+  let s ← dScenario (← j.getObjVal? "flat")
+  let gs (o : Json) (k : String) : Except String (List Char) := do return (← (← o.getObjVal? k).getStr?).toList
+  let secrets ← match j.getObjVal? "secrets" with
+    | .ok (.arr a) => a.toList.mapM fun o => do
+        return ({ ns := ← gs o "ns", name := ← gs o "name", isTLS := (← gs o "type") = "kubernetes.io/tls".toList,
+                  pairOK := ← (← o.getObjVal? "pairOK").getBool?, cert := ← gs o "cert", key := ← gs o "key" } : NGF.Tls.SecretObj)
+    | _ => pure []
+  match dConfig (← j.getObjVal? "files") with
+  | .error e => pure (Json.mkObj [("inFragment", false), ("why", "unparsable: " ++ e)])
+  | .ok cfg =>
+    let t := NGF.PipelineTlsProbe.tie cfg s secrets 160
+    pure (Json.mkObj [("inFragment", t.inFragment), ("why", t.why), ("hyp", t.hyp), ("realOK", t.realOK), ("realWhy", t.realWhy),
+      ("probes", t.probes), ("tlsProbes", t.tlsProbes), ("thmProbes", t.thmProbes), ("thmTlsProbes", t.thmTlsProbes),
+      ("exclSniServed", t.exclSniServed), ("exclShadow", t.exclShadow), ("exclReq", t.exclReq),
+      ("mismatchProbes", t.mismatchProbes), ("thmFail", t.thmFail), ("realFail", t.realFail),
+      ("realModelDiff", t.realModelDiff), ("specFail", t.specFail), ("mismatchFail", t.mismatchFail),
+      ("outcomes", Json.mkObj (t.outcomes.map fun p => (p.1, (p.2 : Json))))])
 
 def answer (mode : String) (line : String) : String :=
   match Json.parse line with
@@ -246,7 +269,8 @@ def answer (mode : String) (line : String) : String :=
   | .ok j =>
     let k := optStr j "k"
     let r : Except String Json :=
-      if mode == "pipeline" then
+      if mode == "pipelineT" then pipelineTJ j
+      else if mode == "pipeline" then
         if k == "J" then pipelineJ j else pure (Json.mkObj [("skip", true)])
       else if mode == "judge" then
         if k == "J" then judgeJ j else if k == "M" then judgeM j else if k == "G" then judgeG j
@@ -264,7 +288,7 @@ def driver (args : List String) : IO UInt32 := do
   let stdout ← IO.getStdout
   match args with
   | [m] =>
-    if m == "judge" || m == "model" || m == "pipeline" then
+    if m == "judge" || m == "model" || m == "pipeline" || m == "pipelineT" then
       NGF.Proto.forEachLine stdin fun l => do stdout.putStrLn (answer m l); stdout.flush
       return 0
     else IO.eprintln "usage: C02 model|judge"; return 2
